@@ -515,7 +515,8 @@ class MolGrid(Grid):
         natoms = len(atcoords)
         # List of int is created, so that indexing is possible in the for-loop.
         if isinstance(d_sectors, (int, np.integer)):
-            d_sectors = [d_sectors] * natoms
+            # the same degree for every sector of every atom: one more degree than radial sector boundaries
+            d_sectors = [[d_sectors] * (len(r_sectors[i]) + 1) for i in range(natoms)]
         # If s_sectors given d_sectors is set to [None] for all atoms.
         if s_sectors is not None:
             d_sectors = [None] * natoms
